@@ -159,7 +159,7 @@ PROPS = {
                       "one wait inside the k-th window; no waits or retries among event reports; RequestsPerCheck = attempts made with the right success flag; the loop stops only "
                       "when it must) and by the id monitor step6ids (inside a check every request carries the session id of the check's first request; no request id is ever "
                       "seen twice over the whole history, pings and reports included) and by the response-time monitor step6r (exactly one response-time metric per attempt, carrying the monotonic time between "
-                      "the two clock readings that bracket the attempt and the attempt's success; none on any other occasion).  Plus: the back-off window is attained by every value (randomised).  Model tied to code by trace "
+                      "the two clock readings that bracket the attempt and the attempt's success; none on any other occasion).  Plus: the back-off window is attained by every value (randomised), and C06_the_random_draws_influence_nothing_but_the_length_of_the_waits (two-run theorem, Proofs/C06Rel.v: changing the random draws of the back-off leaves the run the same action for action except for the duration of relative waits).  Model tied to code by trace "
                       "equality; the three monitors also run on every implementation trace; observed jitter values are recorded.",
         "level_note": "Proved for the model, unbounded (GUIDs modelled as draws from an unbounded counter: the collision probability of real v4 UUIDs is not modelled).  "
                       "Jitter is compared by window.",
